@@ -57,6 +57,9 @@ or accepting-without-effect are both fine):
     the others follow the BLAS quick-return convention)
   - syr/her/syr2/her2 with the default n and a non-square A (docstring gives
     n = A.size[0] and no squareness requirement; rst calls A "of order n")
+  - gbmv with the default ldA and an A without rows (docstring signature says
+    max(1,A.size[0]); the sibling band routines and the storage convention
+    say A.size[0])
   - symm/hemm: the docstring's "ldB >= max(1,(side=='L') ? n : m)" contradicts
     the BLAS definition it refers to (ldB >= max(1,m)); the BLAS rule is used
   - imaginary parts of the diagonal of Hermitian outputs (zero or unchanged)
@@ -426,6 +429,10 @@ def _geom_gemv(c):
         ku, _ = c.dim("ku", lambda: c.size("A")[0] - kl - 1)
         if ku < 0:
             c.hard.append("negative-ku")
+        if c.args.get("ldA", 0) == 0 and c.size("A")[0] == 0:
+            # docstring signature: ldA=max(1,A.size[0]); ARGUMENTS of the other band routines: ldA=A.size[0];
+            # an A without rows cannot hold a band anyway (blas.rst: size (kl+ku+1, n)) -> left open
+            c.soft.append("band-default-ld-of-empty-A")
         ld = c.ld("A")
     else:
         ld = c.ld("A")
